@@ -1114,34 +1114,41 @@ fn evaluate(rn: &Runner, shape: Shape, v: &Vector) -> Option<(Model, String, Str
     Some((m, asm, toml, obs, out))
 }
 
-/// greedy reduction towards the canonical base / a smaller shape, keeping the failure kind
-fn minimize(
-    rn: &Runner,
-    budget: &AtomicU64,
-    shape: Shape,
-    v: &Vector,
-    kind: &str,
-) -> Option<(Shape, Vector)> {
-    let mut shape = shape;
-    let mut v = v.clone();
-    let same = |sh: Shape, cand: &Vector| -> Option<bool> {
-        if budget.fetch_update(Ordering::SeqCst, Ordering::SeqCst, |b| b.checked_sub(1)).is_err() {
-            return None;
+#[derive(Clone, Copy, Debug)]
+enum Op {
+    DropSeg(usize),
+    DropBank(usize),
+    Reset(usize),
+}
+
+fn reduction_ops(shape: Shape, v: &Vector) -> Vec<Op> {
+    let mut ops = vec![];
+    if shape.s > 1 {
+        for i in (0..shape.s).rev() {
+            ops.push(Op::DropSeg(i));
         }
-        match evaluate(rn, sh, cand) {
-            Some((_, _, _, _, o)) => Some(matches!(&o.failure, Some((k, _)) if k == kind)),
-            None => Some(false),
+    }
+    if shape.b > 1 {
+        for k in (0..shape.b).rev() {
+            ops.push(Op::DropBank(k));
         }
-    };
-    loop {
-        let mut changed = false;
-        // drop a segment (later segments are renumbered; their bytes change with their number)
-        let mut i = shape.s;
-        while i > 0 && shape.s > 1 {
-            i -= 1;
-            if i >= shape.s {
-                continue;
+    }
+    let base = shape.base();
+    for idx in 0..shape.len() {
+        if v[idx] != base[idx] {
+            ops.push(Op::Reset(idx));
+        }
+    }
+    ops
+}
+
+fn apply_op(shape: Shape, v: &Vector, op: Op) -> Option<(Shape, Vector)> {
+    match op {
+        Op::DropSeg(i) => {
+            if shape.s <= 1 || i >= shape.s {
+                return None;
             }
+            // later segments are renumbered (their bytes change with their number)
             let ns = Shape { b: shape.b, s: shape.s - 1 };
             let mut c = v.clone();
             let at = shape.seg(i, 0);
@@ -1149,20 +1156,16 @@ fn minimize(
             let first = c[ns.seg(0, F_START)];
             let last = c[ns.seg(ns.s - 1, F_START)];
             if first == ST_PREV_END || first == ST_PREV_START || last == ST_NEXT_END {
-                continue;
+                return None;
             }
-            if same(ns, &c)? {
-                shape = ns;
-                v = c;
-                changed = true;
-            }
+            Some((ns, c))
         }
-        // drop a bank no segment refers to
-        let mut k = shape.b;
-        while k > 0 && shape.b > 1 {
-            k -= 1;
-            if k >= shape.b || (0..shape.s).any(|i| v[shape.seg(i, F_BANK)] == k as u8) {
-                continue;
+        Op::DropBank(k) => {
+            if shape.b <= 1 || k >= shape.b {
+                return None;
+            }
+            if (0..shape.s).any(|i| v[shape.seg(i, F_BANK)] == k as u8) {
+                return None;
             }
             let ns = Shape { b: shape.b - 1, s: shape.s };
             let mut c = v.clone();
@@ -1174,27 +1177,77 @@ fn minimize(
             }
             let at = shape.bank(k, 0);
             c.drain(at..at + 4);
-            if same(ns, &c)? {
-                shape = ns;
-                v = c;
-                changed = true;
-            }
+            Some((ns, c))
         }
-        // reset factors to their base value
-        let base = shape.base();
-        for idx in 0..shape.len() {
-            if v[idx] != base[idx] {
-                let mut c = v.clone();
-                c[idx] = base[idx];
-                if same(shape, &c)? {
+        Op::Reset(idx) => {
+            let base = shape.base();
+            if idx >= shape.len() || v[idx] == base[idx] {
+                return None;
+            }
+            let mut c = v.clone();
+            c[idx] = base[idx];
+            Some((shape, c))
+        }
+    }
+}
+
+type EvalCache = Mutex<std::collections::HashMap<(Shape, Vector), Option<String>>>;
+
+/// greedy reduction (single steps, then pairs of steps) towards the canonical base / a smaller
+/// shape, keeping the failure kind; None when the run budget is used up
+fn minimize(
+    rn: &Runner,
+    budget: &AtomicU64,
+    cache: &EvalCache,
+    shape: Shape,
+    v: &Vector,
+    kind: &str,
+) -> Option<(Shape, Vector)> {
+    let mut shape = shape;
+    let mut v = v.clone();
+    let same = |sh: Shape, cand: &Vector| -> Option<bool> {
+        if let Some(k) = cache.lock().unwrap().get(&(sh, cand.clone())) {
+            return Some(k.as_deref() == Some(kind));
+        }
+        if budget
+            .fetch_update(Ordering::SeqCst, Ordering::SeqCst, |b| b.checked_sub(1))
+            .is_err()
+        {
+            return None;
+        }
+        let k = match evaluate(rn, sh, cand) {
+            Some((_, _, _, _, o)) => o.failure.map(|f| f.0),
+            None => None,
+        };
+        let r = k.as_deref() == Some(kind);
+        cache.lock().unwrap().insert((sh, cand.clone()), k);
+        Some(r)
+    };
+    'outer: loop {
+        let ops = reduction_ops(shape, &v);
+        for op in &ops {
+            if let Some((ns, c)) = apply_op(shape, &v, *op) {
+                if same(ns, &c)? {
+                    shape = ns;
                     v = c;
-                    changed = true;
+                    continue 'outer;
                 }
             }
         }
-        if !changed {
-            break;
+        for op1 in &ops {
+            if let Some((s1, c1)) = apply_op(shape, &v, *op1) {
+                for op2 in reduction_ops(s1, &c1) {
+                    if let Some((s2, c2)) = apply_op(s1, &c1, op2) {
+                        if same(s2, &c2)? {
+                            shape = s2;
+                            v = c2;
+                            continue 'outer;
+                        }
+                    }
+                }
+            }
         }
+        break;
     }
     Some((shape, v))
 }
@@ -1256,7 +1309,6 @@ fn replay(ctx: &Ctx, case: &Value) -> i32 {
                 match o.failure {
                     Some((k, d)) => {
                         println!("oracle: FAILS ({}) {}", k, d);
-                        return 1;
                     }
                     None => println!("oracle: agrees (verdict taken: {})", o.took_verdict),
                 }
@@ -1268,61 +1320,86 @@ fn replay(ctx: &Ctx, case: &Value) -> i32 {
     0
 }
 
+struct PlanItem {
+    shape: Shape,
+    /// radius of the ball around the canonical base
+    canon: usize,
+    /// radius around every element of the product of core start options (None: product not taken)
+    place: Option<usize>,
+    /// product start options x assignment of every segment to a defined bank, radius 0
+    assign: bool,
+    /// like `place`, with the first bank sized (+4) and filled ($ff)
+    sized: Option<usize>,
+}
+
 struct Plan {
-    /// (shape, canonical radius, placement radius (None = no placement product), sized placement radius)
-    items: Vec<(Shape, usize, Option<usize>, Option<usize>)>,
+    items: Vec<PlanItem>,
     with_next: bool,
 }
 
 fn plan(thorough: bool) -> Plan {
     let mut items = vec![];
+    let line = |b: usize, s: usize, r: usize| PlanItem {
+        shape: Shape { b, s },
+        canon: r,
+        place: None,
+        assign: false,
+        sized: None,
+    };
     if !thorough {
         for b in 0..=2usize {
             for s in 1..=3usize {
-                let sh = Shape { b, s };
-                let canon = if s <= 2 { 3 } else { 2 };
-                let place = Some(if s <= 2 { 1 } else { 1 });
+                let canon = if s == 1 || (s == 2 && b < 2) { 3 } else { 2 };
+                let place = Some(1);
                 let sized = if b > 0 { Some(if s <= 2 { 1 } else { 0 }) } else { None };
-                items.push((sh, canon, place, sized));
+                items.push(PlanItem {
+                    shape: Shape { b, s },
+                    canon,
+                    place,
+                    assign: true,
+                    sized,
+                });
             }
         }
         // lines beyond the bound: one factor at a time
-        for s in 1..=6usize {
-            items.push((Shape { b: 4, s }, if s == 6 { 1 } else { 0 }, None, None));
+        for s in 1..=5usize {
+            items.push(line(4, s, 0));
         }
-        for b in 0..=3usize {
-            items.push((Shape { b, s: 6 }, 1, None, None));
+        for b in 0..=4usize {
+            items.push(line(b, 6, 1));
         }
-        items.push((Shape { b: 3, s: 3 }, 1, None, None));
+        items.push(line(3, 3, 1));
     } else {
         for b in 0..=3usize {
             for s in 1..=4usize {
-                let sh = Shape { b, s };
-                let canon = if s <= 2 { 4 } else { 3 };
-                let place = Some(match s {
-                    1 | 2 => 2,
-                    3 => 1,
-                    _ => 0,
-                });
-                let sized = if b > 0 {
-                    Some(match s {
-                        1 | 2 => 2,
-                        3 => 1,
-                        _ => 0,
-                    })
-                } else {
-                    None
+                let canon = match (b, s) {
+                    (0..=1, 1..=2) | (2, 1) => 4,
+                    (2..=3, 4) => 2,
+                    _ => 3,
                 };
-                items.push((sh, canon, place, sized));
+                let r = match (b, s) {
+                    (3, 2) => Some(1),
+                    (_, 1) | (_, 2) => Some(2),
+                    (_, 3) => Some(1),
+                    _ => Some(0),
+                };
+                items.push(PlanItem {
+                    shape: Shape { b, s },
+                    canon,
+                    place: r,
+                    assign: s <= 3 || b <= 2,
+                    sized: if b > 0 { r } else { None },
+                });
             }
         }
-        for s in 1..=6usize {
-            items.push((Shape { b: 4, s }, if s == 6 { 2 } else { 1 }, None, None));
+        for s in 1..=5usize {
+            items.push(line(4, s, 1));
         }
         for b in 0..=3usize {
-            items.push((Shape { b, s: 6 }, 2, None, None));
-            items.push((Shape { b, s: 5 }, 1, None, None));
+            items.push(line(b, 5, 1));
+            items.push(line(b, 6, 2));
         }
+        items.push(line(4, 6, 2));
     }
     Plan {
         items,
@@ -1349,30 +1426,37 @@ pub fn run(ctx: &Ctx, replay_case: Option<&Value>) -> i32 {
     // ---- enumerate
     let mut space: HashSet<(Shape, Vector)> = HashSet::new();
     let mut plan_desc = vec![];
-    for (sh, canon, place, sized) in &pl.items {
+    for it in &pl.items {
+        let sh = &it.shape;
         let before = space.len();
-        ball(*sh, &sh.base(), *canon, pl.with_next, &mut space);
+        ball(*sh, &sh.base(), it.canon, pl.with_next, &mut space);
         let mut nbases = 1usize;
-        if let Some(r) = place {
-            for assign in [false, true] {
-                let bases = placement_bases(*sh, assign, false);
-                nbases += bases.len();
-                for bv in &bases {
-                    // the assignment product is taken at radius 0 only
-                    ball(*sh, bv, if assign { 0 } else { *r }, pl.with_next, &mut space);
-                }
+        if let Some(r) = it.place {
+            let bases = placement_bases(*sh, false, false);
+            nbases += bases.len();
+            for bv in &bases {
+                ball(*sh, bv, r, pl.with_next, &mut space);
             }
         }
-        if let Some(r) = sized {
+        if it.assign && sh.b > 1 {
+            let bases = placement_bases(*sh, true, false);
+            nbases += bases.len();
+            for bv in bases {
+                space.insert((*sh, bv));
+            }
+        }
+        if let Some(r) = it.sized {
             let bases = placement_bases(*sh, false, true);
             nbases += bases.len();
             for bv in &bases {
-                ball(*sh, bv, *r, pl.with_next, &mut space);
+                ball(*sh, bv, r, pl.with_next, &mut space);
             }
         }
         plan_desc.push(json!({
-            "banks": sh.b, "segments": sh.s, "radius_around_canonical_base": canon,
-            "radius_around_placement_product": place, "radius_around_sized_placement_product": sized,
+            "banks": sh.b, "segments": sh.s, "radius_around_canonical_base": it.canon,
+            "radius_around_start_product": it.place,
+            "start_x_bank_assignment_product_radius_0": it.assign && sh.b > 1,
+            "radius_around_start_product_with_sized_filled_first_bank": it.sized,
             "bases": nbases, "configurations_added": space.len() - before,
         }));
     }
@@ -1381,13 +1465,23 @@ pub fn run(ctx: &Ctx, replay_case: Option<&Value>) -> i32 {
     ctx.set("plan", json!(plan_desc));
     ctx.set("configurations_enumerated", json!(cases.len()));
     ctx.set("mos_bin", json!(rn.mos.display().to_string()));
+    if std::env::var("C09_COUNT_ONLY").is_ok() {
+        for p in &plan_desc {
+            println!("{}", p);
+        }
+        println!("total {}", cases.len());
+        return 0;
+    }
 
     let outcomes: Mutex<HashSet<u64>> = Mutex::new(HashSet::new());
     let error_classes: Mutex<BTreeMap<String, u64>> = Mutex::new(BTreeMap::new());
     let first_panic: Mutex<Option<Value>> = Mutex::new(None);
     let budget = AtomicU64::new(if thorough { 150_000 } else { 15_000 });
     let budget_start = budget.load(Ordering::SeqCst);
+    let eval_cache: EvalCache = Mutex::new(std::collections::HashMap::new());
     let files_compared = AtomicU64::new(0);
+    let show = std::env::var("C09_SHOW").ok();
+    let shown = AtomicU64::new(0);
     let bytes_compared = AtomicU64::new(0);
 
     cases.par_iter().for_each(|(shape, v)| {
@@ -1410,6 +1504,12 @@ pub fn run(ctx: &Ctx, replay_case: Option<&Value>) -> i32 {
         let o = judge(&m, &obs);
         for c in &o.counts {
             ctx.count(c);
+            // debugging aid: C09_SHOW=<counter> prints the first configurations counted there
+            if show.as_deref() == Some(*c) && shown.fetch_add(1, Ordering::SeqCst) < 6 {
+                let _g = outcomes.lock().unwrap();
+                println!("--- {} ---\n{}{}", c, asm, toml);
+                print_obs(&obs);
+            }
         }
         ctx.count(if o.exit_ok { "mos_exit_0" } else { "mos_exit_nonzero" });
         if o.panicked {
@@ -1433,7 +1533,7 @@ pub fn run(ctx: &Ctx, replay_case: Option<&Value>) -> i32 {
         if let Some((kind, what)) = &o.failure {
             ctx.count("failing_configurations");
             // reduce, then name the class by what is left
-            let (sig, case, what) = match minimize(&rn, &budget, *shape, v, kind) {
+            let (sig, case, what) = match minimize(&rn, &budget, &eval_cache, *shape, v, kind) {
                 Some((ms, mv)) => {
                     let mm = model(ms, &mv).unwrap();
                     let (masm, mtoml) = render(ms, &mv, &mm);
